@@ -11,11 +11,12 @@ import gen
 import jobs as J
 import model as M
 from gen import H, O
+import dyn as D
 from vlib import run_driver_parallel, coq_eval, warm_config, trace_to_coq, unhex
 from props.C14 import split, diff, canon_path, RES
 
 # the case files of this check import the monitors: keep them compiled against the current generated constants
-COQ_TARGETS = ("theories/Replay.vo", "theories/Discipline.vo", "theories/FdBalance.vo", "proofs/MonitorProofs.vo")
+COQ_TARGETS = ("theories/Replay.vo", "theories/Discipline.vo", "theories/FdBalance.vo", "proofs/MonitorProofs.vo", "theories/Dyn.vo")
 
 
 def deep_tree(rng):
@@ -94,6 +95,7 @@ def run(ck):
     nontrivial = set()
     samples = []
     cases = []
+    dcases = []
     for deny in ((), ("openat2",)):
         tag = ",".join(deny) or "none"
         send = []
@@ -181,6 +183,11 @@ def run(ck):
             nontrivial.add((pbytes, len(expected), tag))
             if len(samples) < 4 and len(expected) > 3:
                 samples.append(desc)
+            # tie T2d: every answer of the running kernel (getdents listings as sets) and the resulting tree
+            if res.get("trace") and rng.random() < (0.8 if thorough else 0.5):
+                dterm = D.case_term(job["tree"], res)
+                if dterm:
+                    dcases.append((len(dcases), dterm, desc, res))
             if rng.random() < (0.5 if thorough else 0.3) and res.get("trace"):
                 cfg = warm_config(res["_warm"])
                 j2 = dict(job)
@@ -277,6 +284,8 @@ def run(ck):
                 stats["t1_bad"] += 1
                 ck.violation("T1: model and implementation disagree on remove_all",
                              {"job": J.describe(job), "deny": tag, "replay": rep, "real_outcome": res.get("res")}, False)
+    if not ck.proof_broken:
+        D.evaluate(ck, dcases, stats, "remove_all", coq_eval, "c13d")
     cov = {
         "evaluations": stats["ops"] + stats["races"],
         "distinct_nontrivial": len(nontrivial),
@@ -290,6 +299,7 @@ def run(ck):
         "racing_groups": stats["races"], "runs_with_a_link_swapped_in": stats.get("swapped_in", 0), "runs_with_a_competing_remover": stats.get("competing", 0), "subtree_size_histogram": stats["subtree_sizes"],
         "traces_validated_against_impl": stats["t1_ok"], "t1_mismatches": stats["t1_bad"], "disagreements_checked": stats["t1_bad"],
     }
+    cov.update(D.coverage(stats))
     assumptions = ["races use the real scheduler (threads released by a barrier), not an exhaustive enumeration of interleavings",
                    "the parent oracle is the kernel's raw openat2(RESOLVE_IN_ROOT) on an identical tree"]
     return cov, assumptions
